@@ -2,7 +2,7 @@
 (* Concrete-syntax facts of FML used by generators and judges (C07, C15, C06):
    the string-literal token, the operator precedence table and left-associative
    precedence climbing (the README table), the range of the parser.                *)
-EXTENDS Integers, Sequences, FiniteSets
+EXTENDS Integers, Sequences, FiniteSets, TLC
 
 \* STRING_LITERAL body: any character except an unescaped backslash or double quote; escapes \~ \n \t \r \\ \"
 RECURSIVE StringBodyOKFrom(_,_)
@@ -32,4 +32,65 @@ ClimbLoop(lhs, xs, os, minl) ==
        ClimbLoop(MkOp(op, lhs, r.tree), r.xs, r.os, minl)
 Climb(xs, os, minl) == ClimbLoop(Head(xs), Tail(xs), os, minl)
 ParseInfix(xs, os) == Climb(xs, os, 1).tree
+
+------------------------------------------------------------------------------
+\* AST constructors (normalized form, without the position numbers)
+Var(n) == [t |-> "Var", n |-> n]
+IntL(v) == [t |-> "Int", v |-> v]
+NullL == [t |-> "Null"]
+GetF(o, n) == [t |-> "GetField", o |-> o, n |-> n]
+Idx(o, i) == [t |-> "Index", o |-> o, i |-> i]
+MCallN(o, n, args) == [t |-> "MCall", o |-> o, n |-> n, args |-> args]
+CallN(n, args) == [t |-> "Call", n |-> n, args |-> args]
+IfN(c, a, b) == [t |-> "If", c |-> c, a |-> a, b |-> b]
+TopN(es) == [t |-> "Top", es |-> es]
+
+\* dangling else: `else` binds to the nearest `if`.  Recursive descent over tokens "if" "c" "then" "else" "a":
+\*   S ::= "a" | "if" "c" "then" S [ "else" S ]        (greedy else)
+\* returns [tree, rest]
+RECURSIVE ParseIf(_)
+ParseIf(ts) ==
+  IF Head(ts) = "a" THEN [tree |-> Var("a"), rest |-> Tail(ts)]
+  ELSE LET th == ParseIf(SubSeq(ts, 4, Len(ts))) IN          \* after  if c then
+       IF th.rest # <<>> /\ Head(th.rest) = "else"
+       THEN LET el == ParseIf(Tail(th.rest)) IN [tree |-> IfN(Var("c"), th.tree, el.tree), rest |-> el.rest]
+       ELSE [tree |-> IfN(Var("c"), th.tree, NullL), rest |-> th.rest]
+RECURSIVE IfTexts(_)
+IfTexts(d) == IF d = 0 THEN {<<"a">>}
+              ELSE IfTexts(d - 1) \cup {<<"if", "c", "then">> \o x : x \in IfTexts(d - 1)}
+                   \cup {<<"if", "c", "then">> \o x \o <<"else">> \o y : x \in IfTexts(d - 1), y \in IfTexts(d - 1)}
+
+\* postfix chains nest left to right:  base (.a | [1] | .m(2))*
+ApplyPostfix(e, p) == CASE p = "field" -> GetF(e, "a") [] p = "index" -> Idx(e, IntL(1)) [] p = "method" -> MCallN(e, "m", <<IntL(2)>>)
+PostfixToks(p) == CASE p = "field" -> <<".", "a">> [] p = "index" -> <<"[", "1", "]">> [] p = "method" -> <<".", "m", "(", "2", ")">>
+RECURSIVE ChainTree(_,_), ChainToks(_)
+ChainTree(e, ps) == IF ps = <<>> THEN e ELSE ChainTree(ApplyPostfix(e, Head(ps)), Tail(ps))
+ChainToks(ps) == IF ps = <<>> THEN <<>> ELSE PostfixToks(Head(ps)) \o ChainToks(Tail(ps))
+BaseTree(b) == CASE b = "var" -> Var("x") [] b = "call" -> CallN("f", <<IntL(1)>>) [] b = "paren" -> Var("x") [] b = "block" -> [t |-> "Block", es |-> <<Var("x")>>]
+BaseToks(b) == CASE b = "var" -> <<"x">> [] b = "call" -> <<"f", "(", "1", ")">> [] b = "paren" -> <<"(", "x", ")">> [] b = "block" -> <<"begin", "x", "end">>
+
+\* the range of the parser (which ASTs TopLevelParser can produce), as far as the generators need it
+RECURSIVE InRange(_,_)
+InRange(e, top) ==
+  LET all(es) == \A i \in 1..Len(es) : InRange(es[i], FALSE) IN
+  CASE e.t = "Int" -> e.v >= -2147483647 - 1 /\ e.v <= 2147483647
+    [] e.t \in {"Bool", "Null", "Var"} -> TRUE
+    [] e.t \in {"Let", "Assign"} -> InRange(e.e, FALSE)
+    [] e.t = "Block" -> e.es # <<>> /\ all(e.es)
+    [] e.t = "Top" -> top /\ e.es # <<>> /\ \A i \in 1..Len(e.es) : InRange(e.es[i], e.es[i].t = "Fun")
+    [] e.t = "Fun" -> top /\ InRange(e.body, FALSE)            \* only at top level (object members are handled under Object)
+    [] e.t = "If" -> InRange(e.c, FALSE) /\ InRange(e.a, FALSE) /\ InRange(e.b, FALSE)
+    [] e.t = "While" -> InRange(e.c, FALSE) /\ InRange(e.b, FALSE)
+    [] e.t = "Call" -> all(e.args)
+    [] e.t = "MCall" -> InRange(e.o, FALSE) /\ all(e.args)
+    [] e.t = "Print" -> StringBodyOK(e.f) /\ all(e.args)
+    [] e.t = "GetField" -> InRange(e.o, FALSE)
+    [] e.t = "SetField" -> InRange(e.o, FALSE) /\ InRange(e.e, FALSE)
+    [] e.t = "Index" -> InRange(e.o, FALSE) /\ InRange(e.i, FALSE)
+    [] e.t = "SetIndex" -> InRange(e.o, FALSE) /\ InRange(e.i, FALSE) /\ InRange(e.e, FALSE)
+    [] e.t = "Array" -> InRange(e.size, FALSE) /\ InRange(e.init, FALSE)
+    [] e.t = "Object" -> InRange(e.parent, FALSE) /\ \A i \in 1..Len(e.members) :
+                           LET m == e.members[i] IN (m.t = "Let" /\ InRange(m.e, FALSE)) \/ (m.t = "Fun" /\ InRange(m.body, FALSE))
+    [] OTHER -> FALSE
+InParserRange(ast) == ast.t = "Top" /\ InRange(ast, TRUE)
 =============================================================================
